@@ -398,3 +398,344 @@ Proof.
   assert (Hy : obs y = obs x) by congruence.
   by rewrite (is_tomb_obs _ _ Hy), Htomb.
 Qed.
+
+(* ---------- compaction, step by step, for an arbitrary store predicate ---------- *)
+Section generic.
+  Variable v : variant.
+  Hypothesis Hstrict : v_strict_get v = true.
+  Variables (c : ccfg) (now : N).
+  (* P0: what is known of the store the compaction starts on; P: what is maintained *)
+  Variables P0 P : gmap name (sobj obj) → Prop.
+  Hypothesis P0_P : ∀ st, P0 st → P st.
+  Hypothesis P_ok : ∀ st, P st → store_ok st.
+  (* a change confined to the temp manifest and to unallocated segment names *)
+  Hypothesis P_frame : ∀ st st', P st → st' !! NMan = st !! NMan →
+    (∀ rid m, cur_manifest st rid = Some m →
+       ∀ k, (k = NTmp ∨ k = NMan ∨ ∃ i, k = NSeg i ∧ m_next m <= i) ∨ st' !! k = st !! k) →
+    P st'.
+  (* the manifest swap: the segments [sel] are replaced by [xs] (none, or one holding [out]) *)
+  Hypothesis P_install : ∀ st st' m m' sel xs out,
+    P0 st → cur_manifest st 0 = Some m →
+    (∀ s, In s sel → In s (m_segs m)) →
+    out = compact_out (now - cc_ttl c) (fold_left (absorb v) (flat_map (seg_deltas st) sel) ∅) →
+    st' !! NMan = Some (Whole (OMan m')) →
+    m_ck m' = m_ck m → m_next m <= m_next m' →
+    (∀ s, In s (m_segs m') ↔ In s xs ∨ (In s (m_segs m) ∧ ¬ In (si_id s) (map si_id sel))) →
+    (∀ s, In s (m_segs m) → ¬ In (si_id s) (map si_id sel) → st' !! si_key s = st !! si_key s) →
+    (∀ ci, m_ck m = Some ci → st' !! ci_key ci = st !! ci_key ci) →
+    (∀ x, In x xs → si_key x = NSeg (si_id x) ∧ si_id x < m_next m' ∧ m_next m <= si_id x ∧
+                    st' !! si_key x = Some (Whole (OSeg out))) →
+    (xs = [] ∧ out = []) ∨ (∃ x, xs = [x] ∧ out ≠ []) →
+    P st'.
+
+  Lemma compact_generic sz (w : world obj) w' r :
+    compact v c now sz w = (w', r) → P0 (w_store w) → P (w_store w').
+  Proof.
+    intros Hcomp HI0. pose proof (P0_P _ HI0) as HI. revert Hcomp HI. unfold compact.
+    destruct (load_or_create w 0) as [w1 r1] eqn:Hl.
+    apply load_or_create_spec in Hl as (Hs1 & Hm1 & _ & _).
+    destruct r1 as [m| |]; [|intros [= <- <-]; by rewrite Hs1..].
+    specialize (Hm1 m eq_refl). unfold compact_rest.
+    destruct (N.of_nat (length (select c m)) <? cc_min c). { intros [= <- <-]; by rewrite Hs1. }
+    destruct (read_segs v w1 (select c m) (CAcc ∅ 0 [] [])) as [w2 r2] eqn:Hr.
+    pose proof (read_segs_store _ _ _ _ _ _ Hr) as Hs2.
+    destruct r2 as [a| |]; [|intros [= <- <-]; by rewrite Hs2, Hs1..].
+    intros Hrest HI.
+    assert (Hg : man_good (w_store w) m).
+    { destruct (P_ok _ HI 0) as (m' & Hc' & Hg'). congruence. }
+    assert (Hsegok : ∀ s, In s (m_segs m) → seg_ok (w_store w) m s).
+    { intros s Hs. destruct Hg as [Hf _]. rewrite Forall_forall in Hf. by apply Hf, elem_of_list_In. }
+    apply read_segs_ok in Hr as (Ha & Hmi & Hmap); [|done|].
+    2: { intros s Hs. rewrite Hs1. by destruct (Hsegok s (select_sub _ _ _ Hs)) as (_ & _ & H). }
+    simpl in Ha, Hmi, Hmap. rewrite Hs1 in Hmap.
+    set (sel := select c m) in *. set (st := w_store w) in *.
+    assert (Hselkey : ∀ s, In s sel → si_key s = NSeg (si_id s) ∧ si_id s < m_next m).
+    { intros s Hs. destruct (Hsegok s (select_sub _ _ _ Hs)) as (H1 & H2 & _). auto. }
+    assert (Hnotdel : ∀ k, (∀ s', In s' sel → k ≠ NSeg (si_id s')) → ¬ In k (map si_key (ca_actual a))).
+    { intros k Hk Hin. rewrite Ha in Hin. apply in_map_iff in Hin as (s' & Hks & Hs').
+      destruct (Hselkey s' Hs') as [Hk' _]. apply (Hk s' Hs'). congruence. }
+    assert (Hkeepdel : ∀ s, In s (m_segs m) → ¬ In (si_id s) (map si_id (ca_actual a)) →
+              ¬ In (si_key s) (map si_key (ca_actual a))).
+    { intros s Hs Hni. apply Hnotdel. intros s' Hs' Heq. destruct (Hsegok s Hs) as (Hk & _).
+      rewrite Hk in Heq. injection Heq as Heq. apply Hni. rewrite Ha. apply in_map_iff. eauto. }
+    revert Hrest. rewrite Hmi. rewrite (bool_decide_true ([] = [])) by done. cbn [negb andb].
+    destruct (N.of_nat (length (ca_actual a)) <? cc_min c).
+    { intros [= <- <-]. by rewrite Hs2, Hs1. }
+    destruct (compact_out (now - cc_ttl c) (ca_map a)) as [|o outs] eqn:Hout.
+    - destruct (save w2 _) as [w3 r3] eqn:Hsv.
+      apply save_spec in Hsv as (Hk3 & Hok3 & Hne3 & _ & _).
+      assert (HI3 : r3 ≠ ROk tt → P (w_store w3)).
+      { intros Hne. eapply P_frame; [exact HI| |].
+        - rewrite (Hne3 Hne). by rewrite Hs2, Hs1.
+        - intros rid m' Hc k. destruct (decide (k = NTmp)) as [->|H1]; [auto|].
+          destruct (decide (k = NMan)) as [->|H2]; [auto|]. right. rewrite Hk3 by done. by rewrite Hs2, Hs1. }
+      destruct r3 as [[]| |]; [|intros [= <- <-]; by apply HI3..].
+      destruct (delete_all w3 _) as [w4 dead] eqn:Hd.
+      pose proof (delete_all_spec _ _ _ _ Hd) as Hk4.
+      intros Hfin. assert (w' = w4) as -> by (by destruct dead; injection Hfin). clear Hfin.
+      eapply (P_install st _ m _ sel [] [] HI0 Hm1); simpl.
+      + apply select_sub.
+      + by rewrite <- Hmap, Hout.
+      + rewrite Hk4; [by apply Hok3|]. apply Hnotdel. intros; discriminate.
+      + reflexivity.
+      + simpl; lia.
+      + intros s. simpl. rewrite <- Ha, in_without. tauto.
+      + intros s Hs Hni. rewrite <- Ha in Hni. destruct (Hsegok s Hs) as (Hk & _).
+        rewrite Hk4 by (by apply Hkeepdel). rewrite Hk3 by (rewrite Hk; discriminate).
+        by rewrite Hs2, Hs1.
+      + intros ci Hci. destruct Hg as [_ Hc]. unfold ck_ok in Hc. rewrite Hci in Hc.
+        destruct Hc as (_ & (i & Hi) & _).
+        rewrite Hk4 by (apply Hnotdel; intros; rewrite Hi; discriminate).
+        rewrite Hk3 by (rewrite Hi; discriminate). by rewrite Hs2, Hs1.
+      + intros x [].
+      + by left.
+    - set (out := o :: outs) in *.
+      destruct (st_put w2 (NSeg (m_next m)) (OSeg out)) as [w3 r3] eqn:Hp.
+      apply st_put_spec in Hp as (Hk3 & Hok3 & _ & _).
+      assert (HI3 : P (w_store w3)).
+      { eapply P_frame; [exact HI| |].
+        - rewrite Hk3 by done. by rewrite Hs2, Hs1.
+        - intros rid m' Hc k. destruct (decide (k = NSeg (m_next m))) as [->|Hne].
+          + left. right. right. exists (m_next m). split; [done|].
+            destruct (cur_manifest_rid _ _ _ _ _ Hc Hm1) as (_ & _ & ->). lia.
+          + right. rewrite Hk3 by done. by rewrite Hs2, Hs1. }
+      destruct r3 as [[]| |]; [|by intros [= <- <-]..].
+      specialize (Hok3 eq_refl).
+      set (seg := SegInfo (m_next m) (NSeg (m_next m)) (N.of_nat (length out)) sz (min_time out) (max_time out)).
+      set (m0 := Manifest (m_version m) (m_rid m) (without (map si_id (ca_actual a)) (m_segs m)) (m_ck m) (m_next m)).
+      destruct (negb (man_ok (add_segment m0 seg))). { by intros [= <- <-]. }
+      destruct (save w3 _) as [w4 r4] eqn:Hsv.
+      apply save_spec in Hsv as (Hk4 & Hok4 & Hne4 & _ & _).
+      assert (HI4 : r4 ≠ ROk tt → P (w_store w4)).
+      { intros Hne. eapply P_frame; [exact HI3| |].
+        - by rewrite (Hne4 Hne).
+        - intros rid m' Hc k. destruct (decide (k = NTmp)) as [->|H1]; [auto|].
+          destruct (decide (k = NMan)) as [->|H2]; [auto|]. right. by rewrite Hk4. }
+      destruct r4 as [[]| |]; [|intros [= <- <-]; by apply HI4..].
+      destruct (delete_all w4 _) as [w5 dead] eqn:Hd.
+      pose proof (delete_all_spec _ _ _ _ Hd) as Hk5.
+      intros Hfin. assert (w' = w5) as -> by (by destruct dead; injection Hfin). clear Hfin.
+      assert (Hnewkey : ¬ In (NSeg (m_next m)) (map si_key (ca_actual a))).
+      { apply Hnotdel. intros s' Hs' [= Heq]. destruct (Hselkey s' Hs') as [_ Hlt]. lia. }
+      eapply (P_install st _ m _ sel [seg] out HI0 Hm1); simpl.
+      + apply select_sub.
+      + by rewrite <- Hmap, Hout.
+      + rewrite Hk5; [by apply Hok4|]. apply Hnotdel. intros; discriminate.
+      + reflexivity.
+      + simpl; lia.
+      + intros s. simpl. rewrite <- Ha, in_insert_seg, in_without. intuition.
+      + intros s Hs Hni. rewrite <- Ha in Hni. destruct (Hsegok s Hs) as (Hk & Hlt & _).
+        rewrite Hk5 by (by apply Hkeepdel). rewrite Hk4 by (rewrite Hk; discriminate).
+        rewrite Hk3 by (rewrite Hk; intros [= Heq]; lia). by rewrite Hs2, Hs1.
+      + intros ci Hci. destruct Hg as [_ Hc]. unfold ck_ok in Hc. rewrite Hci in Hc.
+        destruct Hc as (_ & (i & Hi) & _).
+        rewrite Hk5 by (apply Hnotdel; intros; rewrite Hi; discriminate).
+        rewrite Hk4 by (rewrite Hi; discriminate).
+        rewrite Hk3 by (rewrite Hi; discriminate). by rewrite Hs2, Hs1.
+      + intros x [<-|[]]. simpl. repeat split; [lia|lia|].
+        rewrite Hk5 by done. rewrite Hk4 by discriminate. done.
+      + right. exists seg. split; [done|discriminate].
+  Qed.
+End generic.
+
+(* ---------- compaction preserves what recovery returns ---------- *)
+Lemma load_segs_agree (st st' : gmap name (sobj obj)) l :
+  (∀ s, In s l → st' !! si_key s = st !! si_key s) → load_segs st' l = load_segs st l.
+Proof.
+  induction l as [|s l IH]; intros H; simpl; [done|].
+  unfold load_seg. rewrite (H s (or_introl eq_refl)), IH; [done|]. intros; apply H; by right.
+Qed.
+
+Lemma recover_frame (st st' : gmap name (sobj obj)) rid :
+  store_ok st → st' !! NMan = st !! NMan →
+  (∀ rid m, cur_manifest st rid = Some m →
+     ∀ k, (k = NTmp ∨ k = NMan ∨ ∃ i, k = NSeg i ∧ m_next m <= i) ∨ st' !! k = st !! k) →
+  recover st' rid = recover st rid.
+Proof.
+  intros Hok Hm Hf. destruct (Hok rid) as (m & Hc & Hg).
+  destruct (agree_on_frame st st' m Hg (Hf rid m Hc)) as [Ha Hb].
+  assert (Hc' : cur_manifest st' rid = Some m) by (unfold cur_manifest in *; by rewrite Hm).
+  unfold recover. rewrite Hc, Hc'.
+  rewrite (load_segs_agree st st' (visible m)).
+  2: { intros s Hs%in_visible. apply Ha. tauto. }
+  destruct (m_ck m) as [ci|] eqn:Hci; [|done]. by rewrite (Hb ci).
+Qed.
+
+Lemma store_ok_frame (st st' : gmap name (sobj obj)) :
+  store_ok st → st' !! NMan = st !! NMan →
+  (∀ rid m, cur_manifest st rid = Some m →
+     ∀ k, (k = NTmp ∨ k = NMan ∨ ∃ i, k = NSeg i ∧ m_next m <= i) ∨ st' !! k = st !! k) →
+  store_ok st'.
+Proof.
+  intros Hok Hm Hf. apply (inv_store_ok eq _ []). eapply inv_frame; [exact Hm|exact Hf|].
+  by apply store_ok_inv.
+Qed.
+
+Lemma coherent_sub (l l' : list (list N * rvalue)) :
+  (∀ p, In p l' → In p l) → coherent l → coherent l'.
+Proof. intros Hs Hc a b Ha Hb. apply Hc; auto. Qed.
+
+Section sem.
+  Variable v : variant.
+  Hypothesis Hstrict : v_strict_get v = true.
+  Hypothesis Hmerge : v_merge v = true.
+  Variables (c : ccfg) (now rid : N) (T : gmap (list N) rvalue).
+  Hypothesis Hnow : now <= cc_ttl c.
+
+  Definition Sem0 (st : gmap name (sobj obj)) : Prop :=
+    store_ok st ∧ ∃ rec, recover st rid = Some rec ∧ ck_covers (r_man rec) ∧
+      coherent (map_to_list (ck_state rec) ++ listed_updates st (r_man rec)) ∧
+      obs_kv (state_of rec) = T.
+  Definition Sem (st : gmap name (sobj obj)) : Prop :=
+    store_ok st ∧ ∃ rec, recover st rid = Some rec ∧ obs_kv (state_of rec) = T.
+
+  Lemma sem_frame st st' : Sem st → st' !! NMan = st !! NMan →
+    (∀ rid m, cur_manifest st rid = Some m →
+       ∀ k, (k = NTmp ∨ k = NMan ∨ ∃ i, k = NSeg i ∧ m_next m <= i) ∨ st' !! k = st !! k) →
+    Sem st'.
+  Proof.
+    intros (Hok & rec & Hr & HT) Hm Hf. split; [by eapply store_ok_frame|].
+    exists rec. split; [|done]. by rewrite (recover_frame st st' rid Hok Hm Hf).
+  Qed.
+
+  Lemma sem_install st st' m m' sel xs out :
+    Sem0 st → cur_manifest st 0 = Some m →
+    (∀ s, In s sel → In s (m_segs m)) →
+    out = compact_out (now - cc_ttl c) (fold_left (absorb v) (flat_map (seg_deltas st) sel) ∅) →
+    st' !! NMan = Some (Whole (OMan m')) →
+    m_ck m' = m_ck m → m_next m <= m_next m' →
+    (∀ s, In s (m_segs m') ↔ In s xs ∨ (In s (m_segs m) ∧ ¬ In (si_id s) (map si_id sel))) →
+    (∀ s, In s (m_segs m) → ¬ In (si_id s) (map si_id sel) → st' !! si_key s = st !! si_key s) →
+    (∀ ci, m_ck m = Some ci → st' !! ci_key ci = st !! ci_key ci) →
+    (∀ x, In x xs → si_key x = NSeg (si_id x) ∧ si_id x < m_next m' ∧ m_next m <= si_id x ∧
+                    st' !! si_key x = Some (Whole (OSeg out))) →
+    (xs = [] ∧ out = []) ∨ (∃ x, xs = [x] ∧ out ≠ []) →
+    Sem st'.
+  Proof.
+    intros (Hok & rec & Hr & Hcov & Hco & HT) Hm0 Hsel Hout HM Hck Hnx Hin Hkeep Hckk Hnew Hxs.
+    replace (now - cc_ttl c) with 0 in Hout by lia.
+    set (A := flat_map (seg_deltas st) sel) in *.
+    (* the manifest recovery used *)
+    destruct (recover_spec _ _ _ Hr) as [Hmr Hload].
+    destruct (cur_manifest_rid _ _ _ _ _ Hmr Hm0) as (Esegs & Eck & Enext).
+    assert (Hg : man_good st m) by (destruct (Hok 0) as (m1 & Hc1 & Hg1); congruence).
+    assert (Hsegok : ∀ s, In s (m_segs m) → seg_ok st m s).
+    { intros s Hs. destruct Hg as [Hf _]. rewrite Forall_forall in Hf. by apply Hf, elem_of_list_In. }
+    (* the new store is well formed *)
+    assert (Hg' : man_good st' m').
+    { split.
+      - rewrite Forall_forall. intros s Hs%elem_of_list_In. apply Hin in Hs as [Hx|[Hs Hni]].
+        + destruct (Hnew s Hx) as (H1 & H2 & H3 & H4). repeat split; eauto.
+        + destruct (Hsegok s Hs) as (H1 & H2 & ds & H3). repeat split; [done|lia|].
+          exists ds. by rewrite Hkeep.
+      - destruct Hg as [_ Hc]. unfold ck_ok in *. rewrite Hck. destruct (m_ck m) as [ci|] eqn:Hci; [|done].
+        destruct Hc as (H1 & H2 & kvs & H3). repeat split; [lia|done|]. exists kvs. by rewrite (Hckk ci). }
+    assert (Hok' : store_ok st').
+    { intros rid'. exists m'. split; [|done]. unfold cur_manifest. by rewrite HM. }
+    split; [done|].
+    assert (Hcm' : cur_manifest st' rid = Some m') by (unfold cur_manifest; by rewrite HM).
+    (* every listed segment of m' is visible *)
+    assert (Hcov' : ck_covers m').
+    { unfold ck_covers in *. rewrite Hck. rewrite Eck in Hcov. destruct (m_ck m) as [ci|] eqn:Hci; [|done].
+      intros s Hs. apply Hin in Hs as [Hx|[Hs _]].
+      - destruct (Hnew s Hx) as (_ & _ & H3 & _). destruct Hg as [_ Hc]. unfold ck_ok in Hc.
+        rewrite Hci in Hc. lia.
+      - apply Hcov. by rewrite Esegs. }
+    destruct (load_segs_all st' (visible m')) as (all' & Hall' & _).
+    { intros s Hs%in_visible. destruct Hg' as [Hf _]. rewrite Forall_forall in Hf.
+      destruct (Hf s) as (_ & _ & H); [apply elem_of_list_In; tauto|done]. }
+    (* the checkpoint is the same object *)
+    assert (Hrec' : ∃ rec', recover st' rid = Some rec' ∧ r_ck rec' = r_ck rec ∧ r_deltas rec' = all' ∧ r_man rec' = m').
+    { unfold recover in *. rewrite Hcm', Hall'. rewrite Hmr in Hr. rewrite Hck, <- Eck.
+      destruct (m_ck (r_man rec)) as [ci|] eqn:Hci.
+      - rewrite (Hckk ci) by congruence.
+        destruct (st !! ci_key ci) as [[[| |kvs]|]|]; try discriminate.
+        destruct (load_segs st (visible (r_man rec))); [|discriminate]. injection Hr as <-.
+        eexists; split; [done|]. simpl. auto.
+      - destruct (load_segs st (visible (r_man rec))); [|discriminate]. injection Hr as <-.
+        eexists; split; [done|]. simpl. auto. }
+    destruct Hrec' as (rec' & Hr' & Eck' & Ed' & Em').
+    exists rec'. split; [done|]. rewrite <- HT, !state_of_replay.
+    assert (Ecs : ck_state rec' = ck_state rec) by (unfold ck_state; by rewrite Eck').
+    rewrite Ecs.
+    set (B := map upd_of (flat_map (seg_deltas st) (without (map si_id sel) (m_segs m)))).
+    assert (Hsame : ∀ s s', In s (m_segs m) → In s' sel → si_id s' = si_id s →
+              seg_deltas st s = seg_deltas st s').
+    { intros s s' Hs Hs' Hid. destruct (Hsegok s Hs) as (K1 & _). destruct (Hsegok s' (Hsel s' Hs')) as (K2 & _).
+      unfold seg_deltas. by rewrite K1, K2, Hid. }
+    apply (compact_content_preserves v (ck_state rec) A B); [done| | |].
+    - (* before *)
+      intros p. rewrite (recovered_updates _ _ _ Hr Hcov p). unfold listed_updates, B. rewrite Esegs.
+      rewrite <- map_app, !in_map_iff. split; intros (d & Hp & Hd); exists d; (split; [done|]).
+      + apply in_flat_map in Hd as (s & Hs & Hd). apply in_or_app.
+        destruct (in_dec N.eq_dec (si_id s) (map si_id sel)) as [Hi|Hi].
+        * left. apply in_map_iff in Hi as (s' & Hid & Hs'). apply in_flat_map. exists s'.
+          split; [done|]. by rewrite <- (Hsame s s').
+        * right. apply in_flat_map. exists s. split; [|done]. apply in_without. auto.
+      + apply in_app_or in Hd as [Hd|Hd]; apply in_flat_map in Hd as (s & Hs & Hd); apply in_flat_map; exists s.
+        * split; [by apply Hsel|done].
+        * apply in_without in Hs. tauto.
+    - (* after *)
+      intros p. rewrite Ed'. unfold B. rewrite <- map_app, !in_map_iff.
+      assert (Hd' : ∀ d, In d all' ↔ ∃ s, In s (m_segs m') ∧ In d (seg_deltas st' s)).
+      { intros d. rewrite (load_segs_in _ _ _ Hall' d). split; intros (s & Hs & Hd); exists s; (split; [|done]).
+        - apply in_visible in Hs. tauto.
+        - by apply visible_all. }
+      assert (Hnewd : ∀ x, In x xs → seg_deltas st' x = compacted v 0 A).
+      { intros x Hx. destruct (Hnew x Hx) as (_ & _ & _ & H4). unfold seg_deltas. rewrite H4. by rewrite Hout. }
+      split; intros (d & Hp & Hd); exists d; (split; [done|]).
+      + apply Hd' in Hd as (s & Hs & Hd). apply in_or_app. apply Hin in Hs as [Hx|[Hs Hni]].
+        * left. by rewrite <- (Hnewd s Hx).
+        * right. apply in_flat_map. exists s. split; [by apply in_without|].
+          unfold seg_deltas in *. by rewrite <- Hkeep.
+      + apply Hd'. apply in_app_or in Hd as [Hd|Hd].
+        * destruct Hxs as [[-> E]|(x & -> & _)].
+          { unfold compacted in Hd. rewrite <- Hout, E in Hd. destruct Hd. }
+          exists x. split; [apply Hin; left; by left|]. rewrite Hnewd by (by left). done.
+        * apply in_flat_map in Hd as (s & Hs & Hd). apply in_without in Hs as [Hs Hni].
+          exists s. split; [apply Hin; auto|]. unfold seg_deltas in *. by rewrite Hkeep.
+    - (* coherence of what was there *)
+      eapply coherent_sub; [|exact Hco]. intros p. rewrite !in_app_iff. intros [Hp|[Hp|Hp]]; [auto| |].
+      + right. unfold listed_updates. rewrite Esegs. apply in_map_iff in Hp as (d & Hp & Hd).
+        apply in_map_iff. exists d. split; [done|]. apply in_flat_map in Hd as (s & Hs & Hd).
+        apply in_flat_map. exists s. split; [by apply Hsel|done].
+      + right. unfold listed_updates, B in *. rewrite Esegs. apply in_map_iff in Hp as (d & Hp & Hd).
+        apply in_map_iff. exists d. split; [done|]. apply in_flat_map in Hd as (s & Hs & Hd).
+        apply in_flat_map. exists s. apply in_without in Hs. tauto.
+  Qed.
+
+  (* C13: compact_preserves, at every crash instant and under every fault placement *)
+  Lemma compact_preserves_lemma sz (w : world obj) w' r :
+    compact v c now sz w = (w', r) → Sem0 (w_store w) → Sem (w_store w').
+  Proof.
+    apply (compact_generic v Hstrict c now Sem0 Sem).
+    - intros st (Hok & rec & Hr & _ & _ & HT). split; eauto.
+    - by intros st [H _].
+    - apply sem_frame.
+    - apply sem_install.
+  Qed.
+End sem.
+
+(* non-vacuity: the two-replica hash layout satisfies the hypotheses of compact_preserves *)
+Lemma kl_store_ok : store_ok kl_store.
+Proof.
+  intros rid. eexists. split; [vm_compute; reflexivity|]. split; [|done].
+  repeat constructor; simpl; try lia; eexists; vm_compute; reflexivity.
+Qed.
+
+Lemma kl_sem0 : ∃ T, Sem0 1 T kl_store ∧ nfields T [9] = 2%nat.
+Proof.
+  destruct (recover kl_store 1) as [rec|] eqn:Hr; [|by vm_compute in Hr].
+  exists (obs_kv (state_of rec)). split.
+  - split; [apply kl_store_ok|]. exists rec. split; [done|].
+    assert (Hm : r_man rec = Manifest 2 1 [SegInfo 0 (NSeg 0) 1 100 5 5; SegInfo 1 (NSeg 1) 1 100 6 6] None 2)
+      by (vm_compute in Hr; by injection Hr as <-).
+    assert (Hck : ck_state rec = ∅) by (vm_compute in Hr; by injection Hr as <-).
+    split; [by rewrite Hm|]. split; [|done].
+    rewrite Hck, Hm, map_to_list_empty. simpl.
+    assert (E : listed_updates kl_store
+        (Manifest 2 1 [SegInfo 0 (NSeg 0) 1 100 5 5; SegInfo 1 (NSeg 1) 1 100 6 6] None 2)
+      = [([9], hashv 1 10 5 1); ([9], hashv 2 20 6 2)]) by (vm_compute; reflexivity).
+    rewrite E. apply kl_coherent.
+  - vm_compute in Hr. injection Hr as <-. vm_compute. reflexivity.
+Qed.
